@@ -316,7 +316,9 @@ def emit_range(b, d, relfile, a, z, inserts, renames):
                 # overlapping edit (nested rule application): skip, keep deterministic
                 raise Undecided("overlapping rewrite edits at %s:%d (%s)" % (relfile, e["line"], e["rule"]))
             put_src(cur, e["start"])
-            b.add(e["text"], ("edit", e["rule"], relfile, e["line"]))
+            # R6 loops without a %r6 directive get the default measure of the generated scan loop
+            etxt = re.sub(r"/\*@R6INV:\d+\*/", "#[verus_spec(invariant vx_i <= vx_s@.len(), decreases vx_s@.len() - vx_i)] ", e["text"])
+            b.add(etxt, ("edit", e["rule"], relfile, e["line"]))
             b.rule_counts[e["rule"]] = b.rule_counts.get(e["rule"], 0) + 1
             b.rule_log.append({"rule": e["rule"], "file": relfile, "line": e["line"], "old": e["old"], "new": e["text"]})
             cur = e["end"]
